@@ -180,6 +180,9 @@ def show_pat(p):
     return k
 
 
+PRETTY_RANGES = False
+
+
 def show(n, depth=0):
     """Canonical one-line rendering with resolved (shortened) paths."""
     if n is None:
@@ -272,6 +275,9 @@ def show(n, depth=0):
         return "loop " + show(n["body"], d)
     if k == "Closure":
         return "|" + ", ".join(show_pat(p) for p in n["params"]) + "| " + show(n["body"], d)
+    if k == "StructLit" and "::range::Range" in (n["path"].get("path") or "") and depth >= 0 and PRETTY_RANGES:
+        fs = {f["name"]: show(f["e"], d) for f in n["fields"]}
+        return "%s..%s%s" % (fs.get("start", ""), "=" if "Inclusive" in n["path"]["path"] else "", fs.get("end", ""))
     if k == "StructLit":
         s = short(n["path"].get("path")) + " { " + ", ".join(f["name"] + ": " + show(f["e"], d) for f in n["fields"])
         if n.get("base"):
